@@ -29,6 +29,7 @@ var keyProps = map[string][]string{
 	"refused-although-current":         {"C03"},
 	"double-spend":                     {"C03", "C12"},
 	"selection-handed-twice":           {"C12"},
+	"selected-output-not-in-table":     {"C05", "C03", "C12"},
 	"double-supersede":                 {"C03", "C12"},
 	"pool-unexpected":                  {"C03", "C12"},
 	"failed-":                          {"C05", "C01", "C02"},
@@ -40,6 +41,7 @@ var keyProps = map[string][]string{
 	"irreversible-block-undone":        {"C17"},
 	"snapshot-":                        {"C18"},
 	"crash-":                           {"C06"},
+	"kvengine-":                        {"C06"},
 	"failed-truncate-left-trace":       {"C04", "C05"},
 	"failed-confirm-left-trace":        {"C04", "C05"},
 	"undo-todo-wrong":                  {"C04"},
@@ -78,7 +80,7 @@ var profiles = map[string]*Profile{
 		W:         map[string]int{"xfer": 6, "ktx": 6, "mine": 5, "foreign": 5, "fork": 5, "walk": 3, "sync": 3, "xfer-bad": 1, "truncate": 2},
 		EndChecks: []string{"crashcheck 120"}},
 	"C12": {Name: "schedules", Steps: 30, Fee: []bool{false, true}, Windows: []int64{0},
-		W:         map[string]int{"xfer": 4, "ktx": 4, "race": 10, "balrace": 6, "selrace": 4, "mine": 3, "foreign": 3, "fork": 2, "walk": 2, "sync": 2},
+		W:         map[string]int{"xfer": 4, "ktx": 4, "race": 10, "balrace": 6, "selrace": 4, "xfer-bad": 3, "mine": 3, "foreign": 3, "fork": 2, "walk": 2, "sync": 2},
 		EndChecks: []string{"sync", "obs"}},
 	"C17": {Name: "finality", Steps: 34, Fee: []bool{false}, Windows: []int64{1, 2, 3, 0},
 		W:         map[string]int{"xfer": 2, "ktx": 2, "mine": 6, "foreign": 5, "fork": 7, "walk": 6, "sync": 3, "reopen": 2, "badblock": 2},
@@ -179,6 +181,18 @@ func main() {
 		}
 		if prop == "C06" {
 			n /= 4
+		}
+	}
+	if prop == "C06" {
+		// the engine contract the crash enumeration relies on, checked against the real leveldb engine
+		kc := 24
+		if args.Tier == "thorough" {
+			kc = 200
+		}
+		for c := 0; c < kc; c++ {
+			l := fmt.Sprintf("kvengine %d %d", args.Seed, c)
+			out.Begin(l)
+			out.Emit(l, ex.exec(l))
 		}
 	}
 	g := &Gen{e: ex, r: xvlib.NewRng(args.Seed*1000003 + uint64(len(prop))*7 + uint64(prop[2])), out: out}
